@@ -550,7 +550,39 @@ def run_batch(pid, tier, seed, workers=None, runs=None, write_evidence=True, qui
             nreported += 1
             rc = max(rc, 1) if rc != 2 else 2
         else:
-            unconfirmed.append((dig, path))
+            # The minimised scenario does not replay in a fresh interpreter.  Some defects depend
+            # on process state outside the scenario (object addresses, allocator history) that
+            # differs between the forked children used for minimisation and a fresh interpreter.
+            # A fresh interpreter is deterministic in itself, so look for an instance that replays
+            # THERE: the unminimised scenario (with its chunk's earlier runs as prelude) first.
+            lo = v.get("chunk_lo", v["scenario"].get("run", 0))
+            full = dict(v["scenario"])
+            full["prelude"] = [generate(pm, pid, seed, i, tier) for i in range(lo, full.get("run", lo))]
+            cands = [full, dict(v["scenario"])]
+            done = False
+            for ci, cand in enumerate(cands):
+                cand = json.loads(json.dumps(jsonable(cand)))
+                cand["expect"] = {"sig": v["sig"], "msg": v["msg"]}
+                cpath = path[:-5] + (".full.json" if ci == 0 else ".alone.json")
+                with open(cpath, "w") as f:
+                    json.dump(cand, f, indent=1, sort_keys=True)
+                ok1, dig1 = verify_fresh(cpath)
+                if ok1:
+                    ok2, dig2 = verify_fresh(cpath)          # and it must do so twice, identically
+                    if ok2 and dig1 == dig2:
+                        cand["expect"]["digest"] = dig1
+                        with open(cpath, "w") as f:
+                            json.dump(cand, f, indent=1, sort_keys=True)
+                        print("VIOLATION property=%s replay=%s" % (pid, cpath))
+                        print("  clause=%s :: %s" % (v["sig"].get("clause"), v["msg"]))
+                        print("  signature=%s (not minimised: the violation depends on process state outside the "
+                              "scenario; this file replays exactly in a fresh interpreter)" % key)
+                        nreported += 1
+                        rc = max(rc, 1) if rc != 2 else 2
+                        done = True
+                        break
+            if not done:
+                unconfirmed.append((dig, path))
     if len(fresh) > 4:
         print("  (%d further distinct violation signatures not minimised)" % (len(fresh) - 4))
     for dig, path in unconfirmed:
